@@ -308,6 +308,12 @@ func init() {
 		"IfInt64": func(w *Worker, s *State, f *Frame, fn *ssa.Function, a []Value, d int) (Value, bool) {
 			return w.tc.Ite(w.term(a[0]), w.term(a[1]), w.term(a[2])), false
 		},
+		"IfUint64": func(w *Worker, s *State, f *Frame, fn *ssa.Function, a []Value, d int) (Value, bool) {
+			return w.tc.Ite(w.term(a[0]), w.term(a[1]), w.term(a[2])), false
+		},
+		"IfFloat": func(w *Worker, s *State, f *Frame, fn *ssa.Function, a []Value, d int) (Value, bool) {
+			return w.tc.Ite(w.term(a[0]), w.term(a[1]), w.term(a[2])), false
+		},
 		"IfInt32": func(w *Worker, s *State, f *Frame, fn *ssa.Function, a []Value, d int) (Value, bool) {
 			return w.tc.Ite(w.term(a[0]), w.term(a[1]), w.term(a[2])), false
 		},
@@ -380,6 +386,37 @@ func init() {
 			if cv, ok := w.fmtConcrete(vals); ok {
 				return w.tc.Str(fmt.Sprintf(format.S, cv...)), false
 			}
+			// a symbolic integer among otherwise concrete arguments is concretised by forking over
+			// its feasible values in [0,16] (names built from ordinals, e.g. "<claim>-<sts>-<i>")
+			for i, v := range vals {
+				iv, isI := v.(IfaceV)
+				if !isI {
+					continue
+				}
+				t, isT := iv.V.(*Term)
+				if !isT || t.Const || t.Sort.K != SBV {
+					continue
+				}
+				var guards []*Term
+				for k := 0; k <= 16; k++ {
+					guards = append(guards, w.tc.Eq(t, w.tc.BV(t.Sort.W, uint64(k))))
+				}
+				var outside []*Term
+				for _, g := range guards {
+					outside = append(outside, w.tc.Not(g))
+				}
+				guards = append(guards, w.tc.And(outside...))
+				k := w.decideAmong(s, guards, "concretise", "")
+				if k > 16 {
+					break
+				}
+				nv := append([]Value(nil), vals...)
+				nv[i] = IfaceV{T: iv.T, V: w.tc.BV(t.Sort.W, uint64(k))}
+				if cv, ok := w.fmtConcrete(nv); ok {
+					return w.tc.Str(fmt.Sprintf(format.S, cv...)), false
+				}
+				vals = nv
+			}
 			return w.symFormat(format.S, vals), false
 		}
 		return w.symFormat("?", append([]Value{format}, vals...)), false
@@ -391,7 +428,12 @@ func init() {
 			if format.Const {
 				tag = format.S
 			}
-			return w.newError(s, w.symFormat("err:"+tag, sliceElemsOrNil(a[1]))), false
+			msg := w.symFormat("err:"+tag, sliceElemsOrNil(a[1]))
+			if format.Const && hasLiteralText(format.S) && !msg.Const {
+				// a format with literal text never yields the empty string
+				s.pc = s.pc.push(w.tc.Not(w.tc.Eq(msg, w.tc.Str(""))))
+			}
+			return w.newError(s, msg), false
 		},
 		"errors.New":                       freshErr("errors.New"),
 		"github.com/pkg/errors.New":        freshErr("errors.New"),
@@ -575,3 +617,14 @@ func lockStub(delta int, kind string) stubFn {
 }
 
 var _ = types.Universe
+
+func hasLiteralText(format string) bool {
+	for i := 0; i < len(format); i++ {
+		if format[i] == '%' {
+			i++
+			continue
+		}
+		return true
+	}
+	return false
+}
